@@ -594,7 +594,7 @@ static inline const char *flatcc_json_parser_coerce_ ## type(               \
             return flatcc_json_parser_set_error(ctx, buf, end,              \
                     flatcc_json_parser_error_underflow);                    \
         }                                                                   \
-        *v = (basetype)-(int64_t)value;                                     \
+        *v = (basetype)(int64_t)(0 - value);                                \
     } else {                                                                \
         if (value > uctype ## _MAX) {                                       \
             return flatcc_json_parser_set_error(ctx, buf, end,              \
